@@ -55,7 +55,7 @@ class C03Scenario(ChangeScenario):
                         and written_at.get(int(p['item'][2]), t) < t]
                      + [0.0])
         t_settle = t_last + SETTLE
-        if env.now < t_settle + 5:
+        if env.now < t_settle + 5 or env.owes():
             return []   # horizon too short to judge (does not happen with the generated horizons)
         late = [w for w in self.op_writes(env) if w['t'] > t_settle]
         if late:
